@@ -117,6 +117,11 @@ def run(chk: Check):
     n = 8000 if chk.tier == "thorough" else 500
     for i, (prog, sources, want) in enumerate(progs.gen_programs(chk.rng, n, ops=progs.CORE_OPS)):
         run_program(chk, da, prog, sources)
+    import random as _random
+    api_rng = _random.Random(f"{chk.pid}-api-family-{chk.seed}")      # own stream: the families above keep theirs
+    for prog, sources, want in progs.gen_api_programs(api_rng, 4000 if chk.tier == "thorough" else 400):
+        chk.count("api-call:" + next(q[1] for q in progs.all_nodes(prog) if q[0] == "call"))
+        run_program(chk, da, prog, sources)
     for _ in range(n // 4):
         prog, sources, want = towers(chk.rng)
         run_program(chk, da, prog, sources)
